@@ -30,7 +30,8 @@ def main():
     for d in sorted((V / "seeded").glob("*/")):
         meta = d / "meta.json"
         if meta.exists() and (d / "patch.diff").exists():
-            pid = json.loads(meta.read_text())["property"]
+            m = json.loads(meta.read_text())
+            pid = m.get("check") or m["property"]   # "check": the property whose check catches it, when not the seeded one
             if not only or pid in only:
                 items.append((d / "patch.diff", pid))
     with ThreadPoolExecutor(max_workers=3) as ex:
